@@ -325,7 +325,7 @@ cdef class StratifiedSFCNNPS(NNPS):
     @cython.cdivision(True)
     cdef inline int _get_level(self, double h) noexcept nogil:
         return self.num_levels - <int> min(self.num_levels,
-                ceil(log2((self.cell_size + EPS)/ self.radius_scale / h)))
+                ceil(log2((self.cell_size*(1 + EPS))/ self.radius_scale / h)))
 
     @cython.cdivision(True)
     cdef inline int _get_H(self, double h_q, double h_j):
